@@ -166,4 +166,76 @@ example : errOf (genOn [.update uX 7 ⟨2, 10⟩]) = some (.noMatch uX) := by de
 example : errOf (genOn [.withdraw uX 7, .publish uOut ⟨3, 10⟩]) = some (.outside uOut) := by decide
 example : errOf (genOn [.publish uX ⟨3, 10⟩]) = some (.present uX) := by decide
 
+/-! ## `CurrentObjects::apply_delta`
+
+The three loops of `apply_delta` (publishes and updates insert the element's content under the canonical
+key of its URI, withdraws remove that key) are regenerated as `KM.Gen.C10.CurrentObjects.apply_delta`.
+`publish_atomic`, `staging_refines`, `rrdp_update_preserves` (Props/C10.lean) are about the model's
+`applyDelta`; with the theorem below an edit of an arm (an update that removes, a withdraw that is
+skipped, another order of the three loops) changes the generated definition and this file stops
+checking. -/
+
+/-- What an element puts under its key (never evaluated for a withdraw). -/
+def contentOf : Elem → Content
+  | .publish _ c => c
+  | .update _ _ c => c
+  | .withdraw _ _ => ⟨0, 0⟩
+
+def insEl (o : Objs) (e : Elem) : Objs := o.insert (key e.uri) (contentOf e)
+def remEl (o : Objs) (e : Elem) : Objs := o.erase (key e.uri)
+
+theorem ad_loop3 (l : List Elem) (hl : ∀ e ∈ l, e.isWithdraw = true) :
+    ∀ (o0 o : Objs) (ps us ws : List Elem),
+    KM.Gen.C10.CurrentObjects.apply_delta.loop3 insEl remEl o0 ps us ws o l = l.foldl applyElem o := by
+  induction l with
+  | nil => intro o0 o ps us ws; simp [KM.Gen.C10.CurrentObjects.apply_delta.loop3, KM.Gen.C10.CurrentObjects.apply_delta.after3]
+  | cons e tl ih =>
+      intro o0 o ps us ws
+      have he := hl e (by simp)
+      have htl : ∀ x ∈ tl, x.isWithdraw = true := fun x hx => hl x (by simp [hx])
+      cases e <;> simp [Elem.isWithdraw] at he
+      simp [KM.Gen.C10.CurrentObjects.apply_delta.loop3, ih htl, remEl, applyElem, Elem.uri]
+
+theorem ad_loop2 (l : List Elem) (hl : ∀ e ∈ l, e.isUpdate = true) (ws : List Elem)
+    (hw : ∀ e ∈ ws, e.isWithdraw = true) :
+    ∀ (o0 o : Objs) (ps us : List Elem),
+    KM.Gen.C10.CurrentObjects.apply_delta.loop2 insEl remEl o0 ps us ws o l =
+      ws.foldl applyElem (l.foldl applyElem o) := by
+  induction l with
+  | nil =>
+      intro o0 o ps us
+      simp [KM.Gen.C10.CurrentObjects.apply_delta.loop2, KM.Gen.C10.CurrentObjects.apply_delta.after2, ad_loop3 ws hw]
+  | cons e tl ih =>
+      intro o0 o ps us
+      have he := hl e (by simp)
+      have htl : ∀ x ∈ tl, x.isUpdate = true := fun x hx => hl x (by simp [hx])
+      cases e <;> simp [Elem.isUpdate] at he
+      simp [KM.Gen.C10.CurrentObjects.apply_delta.loop2, ih htl, insEl, contentOf, applyElem, Elem.uri]
+
+theorem ad_loop (l : List Elem) (hl : ∀ e ∈ l, e.isPublish = true) (us ws : List Elem)
+    (hu : ∀ e ∈ us, e.isUpdate = true) (hw : ∀ e ∈ ws, e.isWithdraw = true) :
+    ∀ (o0 o : Objs) (ps : List Elem),
+    KM.Gen.C10.CurrentObjects.apply_delta.loop insEl remEl o0 ps us ws o l =
+      ws.foldl applyElem (us.foldl applyElem (l.foldl applyElem o)) := by
+  induction l with
+  | nil =>
+      intro o0 o ps
+      simp [KM.Gen.C10.CurrentObjects.apply_delta.loop, KM.Gen.C10.CurrentObjects.apply_delta.after, ad_loop2 us hu ws hw]
+  | cons e tl ih =>
+      intro o0 o ps
+      have he := hl e (by simp)
+      have htl : ∀ x ∈ tl, x.isPublish = true := fun x hx => hl x (by simp [hx])
+      cases e <;> simp [Elem.isPublish] at he
+      simp [KM.Gen.C10.CurrentObjects.apply_delta.loop, ih htl, insEl, contentOf, applyElem, Elem.uri]
+
+/-- `CurrentObjects::apply_delta`: generated definition = model, for every object map and every delta. -/
+theorem gen_apply_delta_eq_model (objs : Objs) (d : Delta) :
+    KM.Gen.C10.CurrentObjects.apply_delta insEl remEl objs
+        (d.filter Elem.isPublish) (d.filter Elem.isUpdate) (d.filter Elem.isWithdraw) =
+      applyDelta objs d := by
+  unfold KM.Gen.C10.CurrentObjects.apply_delta
+  rw [ad_loop _ (fun e he => (List.mem_filter.mp he).2) _ _
+        (fun e he => (List.mem_filter.mp he).2) (fun e he => (List.mem_filter.mp he).2)]
+  simp [applyDelta, Delta.ordered, List.foldl_append]
+
 end KM.Props.C10Src
